@@ -127,7 +127,53 @@ from c08mods.ma import Dot  # noqa: E402
 from c08mods.mb import Frame  # noqa: E402
 from c08mods.mc import Group  # noqa: E402
 
+from geneticengine.grammar.decorators import weight as _weight  # noqa: E402
+
+
+class WExpr(ABC):
+    pass
+
+
+class WCond(ABC):
+    pass
+
+
+@_weight(3)
+@dataclass
+class WNum(WExpr):
+    v: int          # (plain: the stack mapping fills refined fields only by luck)
+
+
+@_weight(1)
+@dataclass
+class WAdd(WExpr):
+    l: WExpr
+    r: WExpr
+
+
+@_weight(2)
+@dataclass
+class WIf(WExpr):
+    c: WCond
+    a: WExpr
+
+
+@_weight(5)
+@dataclass
+class WFlag(WCond):
+    b: bool
+
+
+@_weight(1)
+@dataclass
+class WLess(WCond):
+    l: WExpr
+    r: WExpr
+
+
 GRAMMARS = {
+    # production weights on TWO abstract symbols (every extraction re-normalises what is stored on the classes)
+    "weighted": ([WNum, WAdd, WIf, WFlag, WLess], WExpr),
     "full": ([Lit, Var, Add, Neg, Sum, If, Less, Flag, Pair, Tag], Expr),
     "plain": ([Lit, Var, Add, Neg, Less, Flag, If], Expr),
     "split": ([Frame, Dot, Group], Shape),
@@ -176,6 +222,19 @@ def run_one(algo: str, rep_name: str, gname: str, seed: int, budget: int, own_tr
         return (len(s) * 7919) % 1000 + len(s) / 1000.0
 
     problem = SingleObjectiveProblem(ff, minimize=False)
+    if algo == "gplex":
+        # many objectives (one case per "training sample"), lexicase selection
+        from geneticengine.algorithms.gp.operators.combinators import SequenceStep
+        from geneticengine.algorithms.gp.operators.crossover import GenericCrossoverStep
+        from geneticengine.algorithms.gp.operators.mutation import GenericMutationStep
+        from geneticengine.algorithms.gp.operators.selection import LexicaseSelection
+        from geneticengine.problems import MultiObjectiveProblem
+
+        def mff(p):
+            s = repr(p)
+            log.append(s)
+            return [float((len(s) * (j + 3) + j * j) % 7) for j in range(20)]
+        problem = MultiObjectiveProblem([j % 2 == 0 for j in range(20)], mff)
     b = EvaluationBudget(budget)
     # a tracker supplied by the user without an evaluator (the usual way to attach recorders)
     kw = {"tracker": SingleObjectiveProgressTracker(problem, recorders=[])} if own_tracker else {}
@@ -185,6 +244,10 @@ def run_one(algo: str, rep_name: str, gname: str, seed: int, budget: int, own_tr
         elif algo == "gpc":
             # population large enough for the default step to reserve elitism slots
             alg = GeneticProgramming(problem, b, rep, random=r, population_size=24, **kw)
+        elif algo == "gplex":
+            kw = {}
+            alg = GeneticProgramming(problem, b, rep, random=r, population_size=10,
+                                     step=SequenceStep(LexicaseSelection(), GenericCrossoverStep(0.3), GenericMutationStep(0.8)), **kw)
         elif algo == "rs":
             alg = RandomSearch(problem, b, rep, random=r, **kw)
         elif algo == "hc":
